@@ -132,6 +132,9 @@ type caseSpec struct {
 	partial []int
 	steps   []step
 	big     bool // more than 4 GiB
+	reqq    []int64 // per peer: reqq of the remote's extended handshake (-1: none sent)
+	end     string  // how the case ends: the remotes close, or the torrent goes away
+	deaf    bool    // the torrent does not take the peers' notifications
 }
 
 func genCase(rt *rapid.T) caseSpec {
@@ -158,6 +161,11 @@ func genCase(rt *rapid.T) caseSpec {
 			c.initial = []int{hi}
 		}
 	}
+	for i := 0; i < c.npeers; i++ {
+		c.reqq = append(c.reqq, rapid.SampledFrom([]int64{-1, -1, 1, 250, 100000, 1<<32 - 1}).Draw(rt, "reqq"))
+	}
+	c.end = rapid.SampledFrom([]string{"remotes-close", "remotes-close", "torrent-goes-away"}).Draw(rt, "end")
+	c.deaf = rapid.IntRange(0, 3).Draw(rt, "deaf") == 0
 	if rapid.Bool().Draw(rt, "warm") {
 		// start with peer 0 interested and unchoked: more of the history is spent uploading
 		c.steps = append(c.steps, step{Kind: "interested", P: 0}, step{Kind: "t.unchoke", P: 0})
@@ -191,9 +199,25 @@ func run(c caseSpec) (fail string, labels map[string]bool, hist []string) {
 	sim.Cleanup(func() { st.ps.Del() })
 	local := st.ps.Bitmap()
 	var rs []*rmodel
+	sim.ActorEventCap = 1 << 16
+	if c.deaf {
+		// the torrent is not listening: what the peers report queues up at the peers
+		sim.ActorEventCap = 2
+		labels["torrent-not-listening"] = true
+	}
+	defer func() { sim.ActorEventCap = 1 << 16 }()
 	for i := 0; i < c.npeers; i++ {
 		a := sim.NewActor(st.ps, local.Copy(), sim.Caps{Fast: c.fast[i], Extended: true}, []byte("d4:name1:xe"), "", true)
 		rs = append(rs, &rmodel{a: a, fast: c.fast[i], open: true})
+		// the remote's extended handshake: the queue depth it advertises is a
+		// limit on what we ask of it, not on what it may ask of us
+		if i < len(c.reqq) && c.reqq[i] >= 0 {
+			v := uint32(c.reqq[i])
+			a.R.SendExt(nil, &v, nil, "")
+			if v > 250 {
+				labels["remote-advertises-huge-reqq"] = true
+			}
+		}
 	}
 	sim.Settle()
 	for _, m := range rs {
@@ -308,16 +332,27 @@ func run(c caseSpec) (fail string, labels map[string]bool, hist []string) {
 		}
 		// accounting (only when every remote is reading: a choke-state message
 		// still sitting in a congested pipe is not yet visible to the remote)
-		want := 0
+		want, leaving := 0, 0
 		anyPaused := false
 		for _, m := range rs {
-			if m.a.Alive() && m.unchoked {
+			exiting := false
+			select {
+			case <-m.a.P.Done:
+				exiting = true // Run is in its exit path (an error, a time-out)
+			default:
+			}
+			if m.a.Alive() && (!m.open || exiting) {
+				// its connection is closed and it is on its way out (it may have to
+				// wait for a torrent that is not listening): counted or not, and
+				// what it was last told may never have reached the remote
+				leaving++
+			} else if m.a.Alive() && m.unchoked {
 				want++
 			}
 			anyPaused = anyPaused || (m.paused && m.a.Alive())
 		}
-		if got := peer.NumUnchoking(); got != want && !anyPaused {
-			return fmt.Sprintf("unchoke counter is %d, but %d live peers were last told Unchoke", got, want) + describe()
+		if got := int(peer.NumUnchoking()); (got < want || got > want+leaving) && !anyPaused {
+			return fmt.Sprintf("unchoke counter is %d, but %d live peers were last told Unchoke (and %d more are leaving)", got, want, leaving) + describe()
 		}
 		for pi, m := range rs {
 			if m.a.Alive() {
@@ -538,12 +573,44 @@ func run(c caseSpec) (fail string, labels map[string]bool, hist []string) {
 			m.grace = nil
 		}
 	}
-	// everybody leaves
+	// everybody leaves, or the torrent goes away under the peers
+	if c.end == "torrent-goes-away" {
+		for _, m := range rs {
+			if m.a.Alive() && m.unchoked {
+				labels["torrent-goes-away-while-unchoking"] = true
+				if c.deaf {
+					labels["torrent-goes-away-while-unchoking-with-reports-waiting"] = true
+				}
+			}
+			select {
+			case <-m.a.TorDone:
+			default:
+				close(m.a.TorDone)
+			}
+		}
+		time.Sleep(time.Second)
+		sim.Settle()
+	}
 	for _, m := range rs {
 		m.a.R.Close()
 	}
 	time.Sleep(time.Second)
 	sim.Settle()
+	// a torrent that was not listening catches up now: a peer does not leave
+	// before its last reports have been taken
+	for k := 0; k < 100000; k++ {
+		waiting := false
+		for _, m := range rs {
+			if m.a.Alive() {
+				waiting = true
+				m.a.Events()
+			}
+		}
+		if !waiting {
+			break
+		}
+		sim.Settle()
+	}
 	if got := peer.NumUnchoking(); got != 0 {
 		return fmt.Sprintf("all peers are gone, the unchoke counter is %d", got) + describe(), labels, hist
 	}
